@@ -366,6 +366,27 @@ func collectMetrics(metrics map[string]func(float64, ...string), mctx metricsCon
 	}
 
 	for m, c := range metrics {
+		// Two options of one RA may produce the same label values: for example
+		// two RDNSS or DNSSL stanzas which list the same servers or names, or
+		// a prefix inferred from the interface's addresses which is also
+		// configured statically. A Prometheus scrape cannot contain two samples
+		// with identical labels and would fail as a whole, so only the first
+		// such option is reported.
+		var (
+			set  = c
+			seen = make(map[string]struct{})
+		)
+
+		c := func(v float64, labels ...string) {
+			key := strings.Join(labels, "\x00")
+			if _, ok := seen[key]; ok {
+				return
+			}
+			seen[key] = struct{}{}
+
+			set(v, labels...)
+		}
+
 		switch m {
 		case ifiAdvertising:
 			c(boolFloat(mctx.Advertising), mctx.Interface)
